@@ -360,8 +360,21 @@ def run_impl_parallel(modname, cases, jobs):
   chunk = max(16, math.ceil(len(cases) / (jobs * 4)))
   chunks = [cases[i:i + chunk] for i in range(0, len(cases), chunk)]
   import multiprocessing as mp
-  with cf.ProcessPoolExecutor(max_workers=jobs, mp_context=mp.get_context('spawn')) as ex:
-    res = list(ex.map(_impl_worker, [(modname, ch) for ch in chunks]))
+  # a hung case must not hang the check: the whole pool gets a generous deadline, after which the
+  # workers are killed and the run ends as an infrastructure failure (exit 2), never as a verdict
+  deadline = float(os.environ.get('VERIF_POOL_TIMEOUT', '1500' if len(cases) < 20000 else '5400'))
+  ex = cf.ProcessPoolExecutor(max_workers=jobs, mp_context=mp.get_context('spawn'))
+  try:
+    res = list(ex.map(_impl_worker, [(modname, ch) for ch in chunks], timeout=deadline))
+  except cf.TimeoutError:
+    for proc in list(getattr(ex, '_processes', {}).values()):
+      try:
+        proc.kill()
+      except Exception:
+        pass
+    ex.shutdown(wait=False, cancel_futures=True)
+    raise InfraError(f'implementation runs exceeded {deadline:.0f}s (a case hangs?)')
+  ex.shutdown()
   return [r for ch in res for r in ch]
 
 
@@ -591,7 +604,13 @@ def do_replay(mod, ctx, path):
   print('oracle:', orc)
   print('correspondence:', d)
   if orc is not None or d is not None:
-    print(f'VIOLATION property={mod.PID} replay={os.path.relpath(path, VERIF)}')
+    fid = mod.finding(case, orc) if orc is not None else None
+    known = {k['id']: k for k in load_known()
+             if (k.get('property') == mod.PID or mod.PID in k.get('also', [])) and k.get('status') == 'open'}
+    if d is None and fid in known:
+      print(f"KNOWN-FINDING: property={mod.PID} {fid}: {known[fid]['what']}")
+      return 0
+    print(f'VIOLATION property={mod.PID} replay={os.path.relpath(path, OUT)}')
     return 1
   print('replay passes on the current tree')
   return 0
@@ -609,7 +628,11 @@ def main(argv=None):
   mod = importlib.import_module(f'harness.props.{a.pid.lower()}')
   try:
     rc = run_check(mod, a.tier, a.seed, a.replay)
-  except InfraError as e:
+  except Exception as e:  # pylint: disable=broad-except
+    # this file runs as __main__, so a property module raising harness.core.InfraError raises a
+    # different class object: match by name
+    if type(e).__name__ != 'InfraError':
+      raise
     print(f'INFRASTRUCTURE FAILURE (not a verdict): {e}', file=sys.stderr)
     rc = 2
   sys.exit(rc)
